@@ -144,6 +144,28 @@ def pred_fft(c, verbose=False):
             ok, err = close(back, pad, at)
             if not ok:
                 return False, f'unfocus(focus(f,Q),1) != pad2d(f,Q): max err {err:.3g}', {}
+        # the Wavefront methods: energy, spaces, and the sample spacing must come back after unfocus(focus(.))
+        try:
+            efl, wvl_, dx_ = 123.4, 0.55, 0.731
+            wf = pr.Wavefront(np.asarray(f, dtype=complex), wvl_, dx_, space='pupil')
+            wq = wf.focus(efl, Q=Q)
+            w1 = wf.focus(efl, Q=1)
+            wb = w1.unfocus(efl, Q=1)
+            wd = wf.focus(efl)                     # default Q (= 2)
+        except Exception as ex:
+            return False, f'Wavefront.focus/unfocus raised {type(ex).__name__}: {str(ex)[:160]}', {}
+        ok, rel = eclose(energy(wq.data), E0, et)
+        if not ok or wq.space != 'psf' or wq.data.shape != foc.shape:
+            return False, f'Wavefront.focus(Q={Q}): energy ratio {energy(wq.data) / E0:.12g}, space {wq.space!r}, shape {wq.data.shape}', {}
+        ok, rel = eclose(energy(wd.data), E0, et)
+        if not ok:
+            return False, f'Wavefront.focus() with its default Q changes the energy by a factor {energy(wd.data) / E0:.12g}', {}
+        ok, err = close(wb.data, np.asarray(f, dtype=complex), at)
+        if verbose:
+            print(f'  Wavefront: max |unfocus(focus(wf)) - wf| = {err:.3g}; dx {dx_} -> {w1.dx:.6g} -> {wb.dx:.6g}')
+        if not ok or wb.space != 'pupil' or abs(wb.dx - dx_) > 1e-12 * dx_ or wb.wavelength != wvl_:
+            return False, (f'Wavefront.unfocus(Wavefront.focus(wf, Q=1), Q=1) != wf: max err {err:.3g}, space {wb.space!r}, '
+                           f'dx {wb.dx!r} (was {dx_})'), {}
         return True, '', {'focus': foc, 'unfocus': unf, 'pad': pad}
     finally:
         config.precision = 64
@@ -182,28 +204,70 @@ def pred_band(c, verbose=False):
         config.precision = 64
 
 
+KNOWN = {}
+
+
+def _asp_call(pr, f, wvl, dx, z, Q):
+    """Q == 'default' exercises the function's own default argument"""
+    return pr.angular_spectrum(f, wvl, dx, z) if Q == 'default' else pr.angular_spectrum(f, wvl, dx, z, Q=Q)
+
+
+def asp_known_pads(c):
+    """exact description of the known finding `asp-pads-never-crops`: with Q != 1 (the default is Q = 2) angular_spectrum
+    returns the field on the zero-padded grid, so at z = 0 the result is pad2d(f, Q) (not f).  True iff THIS case shows exactly
+    that and nothing else (same values as pad2d(f, Q) to tolerance)."""
+    ft, pr, config = _impl()
+    if c['Q'] == 1:
+        return False
+    f = make_input(c['shape'], c['dtype'], c['seed'])
+    Qn = 2 if c['Q'] == 'default' else c['Q']
+    a0 = _asp_call(pr, f, c['wvl'], c['dx'], 0.0, c['Q'])
+    want = ft.pad2d(f, Q=Qn)
+    return a0.shape == want.shape and a0.shape != f.shape and close(a0, want, tols(c)[1])[0]
+
+
+def _known_witness():
+    c = {'shape': [4, 6], 'Q': 'default', 'wvl': 0.6328, 'dx': 0.05, 'z': 1.0, 'z2': 0.5, 'dtype': 'complex128',
+         'precision': 64, 'seed': 3}
+    return asp_known_pads(c)
+
+
+KNOWN['asp-pads-never-crops'] = {'witness': _known_witness}
+
+
 def pred_asp(c, verbose=False):
+    """free space.  extras['known'] counts literal checks skipped because they are exactly the known finding"""
     ft, pr, config = _impl()
     et, at = tols(c)
     f = make_input(c['shape'], c['dtype'], c['seed'])
     wvl, dx, z, z2, Q = c['wvl'], c['dx'], c['z'], c['z2'], c['Q']
+    Qn = 2 if Q == 'default' else Q
+    known = 0
     config.precision = c.get('precision', 64)
     try:
         try:
-            shp = ft.pad2d(f, Q=Q).shape if Q != 1 else f.shape
-            tf = pr.angular_spectrum_transfer_function(shp, wvl, dx, z)
-            a = pr.angular_spectrum(f, wvl, dx, z, Q=Q)
-            a0 = pr.angular_spectrum(f, wvl, dx, 0.0, Q=Q)
-            # on the (already padded) grid: inverse and additivity
-            g = ft.pad2d(f, Q=Q) if Q != 1 else f
+            g = ft.pad2d(f, Q=Qn) if Qn != 1 else f          # the grid the propagation works on
+            shp = g.shape
+            sform = c.get('samples_form', 'tuple')
+            samples = {'tuple': tuple(shp), 'list': list(shp), 'npint': np.int64(shp[0]), 'int': int(shp[0])}[
+                sform if (shp[0] == shp[1] or sform in ('tuple', 'list')) else 'tuple']
+            tf = pr.angular_spectrum_transfer_function(samples, wvl, dx, z)
+            a = _asp_call(pr, f, wvl, dx, z, Q)
+            a0 = _asp_call(pr, f, wvl, dx, 0.0, Q)
+            # inverse and additivity on the grid the propagation works on
             b = pr.angular_spectrum(pr.angular_spectrum(g, wvl, dx, z, Q=1), wvl, dx, -z, Q=1)
             s12 = pr.angular_spectrum(pr.angular_spectrum(g, wvl, dx, z2, Q=1), wvl, dx, z, Q=1)
             s = pr.angular_spectrum(g, wvl, dx, z + z2, Q=1)
-            wf = pr.Wavefront(np.asarray(g, dtype=complex), wvl, dx).free_space(dz=z, Q=1)
+            az = pr.angular_spectrum(g, wvl, dx, z, Q=1)
+            # the precomputed-transfer-function branch ("clobbers all other arguments": give it nonsense for them)
+            btf = pr.angular_spectrum(g, wvl * 3, dx * 7, -z - 1.0, Q=5, tf=tf)
+            w0 = pr.Wavefront(np.asarray(f, dtype=complex), wvl, dx)
+            wq = w0.free_space(dz=z, Q=Qn)
+            wt = pr.Wavefront(np.asarray(g, dtype=complex), wvl, dx).free_space(tf=tf)
         except Exception as ex:
             return False, f'raised {type(ex).__name__}: {str(ex)[:160]}', {}
         if tf.shape != tuple(shp):
-            return False, f'transfer function has shape {tf.shape}, field {shp}', {}
+            return False, f'transfer function has shape {tf.shape}, field {tuple(shp)}', {}
         # |H| == 1 at EVERY frequency sample (exp of a purely imaginary number: exact to an ulp whatever the phase)
         um = float(np.abs(np.abs(tf) - 1).max())
         eps = 1.2e-7 if et == ETOL32 else 2.3e-16
@@ -213,23 +277,40 @@ def pred_asp(c, verbose=False):
         if verbose:
             print(f'  dx / lambda = {dx / (wvl / 1e3):.3g}; max phase on the band {phase:.3g} rad; max ||tf|-1| = {um:.3g} '
                   f'(min |tf| = {float(np.abs(tf).min()):.3g}); energy ratio - 1 = {energy(a) / energy(f) - 1:.3g}; '
-                  f'max |A_0 f - f| = {float(np.abs(a0 - g).max()):.3g}; max |A_-z A_z f - f| = {float(np.abs(b - g).max()):.3g}; '
-                  f'max |A_z A_z2 f - A_(z+z2) f| = {float(np.abs(s12 - s).max()):.3g}')
+                  f'A_0 f has shape {a0.shape} (f: {f.shape}); max |A_-z A_z g - g| = {float(np.abs(b - g).max()):.3g}; '
+                  f'max |A_z A_z2 g - A_(z+z2) g| = {float(np.abs(s12 - s).max()):.3g}; '
+                  f'max |A(tf=tf) g - A_z g| = {float(np.abs(btf - az).max()):.3g}')
         if not (um <= (1e-6 if et == ETOL32 else 1e-12)):
             return False, (f'transfer function is not unit modulus: max ||H|-1| = {um:.3g}, min |H| = {float(np.abs(tf).min()):.3g} '
                            f'(dx = {dx / (wvl / 1e3):.3g} wavelengths)'), {}
         ok, rel = eclose(energy(a), energy(f), et)
         if not ok:
             return False, f'free-space propagation changes the energy by a factor {energy(a) / energy(f):.12g}', {}
-        checks = [('A_0 f != f', a0, g, at), ('A_-z A_z f != f', b, g, at),
-                  ('Wavefront.free_space != angular_spectrum', wf.data, pr.angular_spectrum(g, wvl, dx, z, Q=1), at)]
+        # the literal clause "is the identity at zero distance": A_0 f == f
+        if a0.shape != f.shape:
+            if asp_known_pads(c):
+                known += 1           # exactly the known finding (output on the padded grid == pad2d(f, Q)); anything else is reported
+            else:
+                return False, f'A_0 f has shape {a0.shape} and is not pad2d(f, Q) either', {}
+        else:
+            ok, err = close(a0, f, at)
+            if not ok:
+                return False, f'A_0 f != f: max err {err:.3g}', {}
+        ok, rel = eclose(energy(btf), energy(g), et)
+        if not ok:
+            return False, f'angular_spectrum(f, tf=tf) changes the energy by a factor {energy(btf) / energy(g):.12g}', {}
+        checks = [('A_-z A_z f != f', b, g, at), ('angular_spectrum(f, tf=H(z)) != angular_spectrum(f, z)', btf, az, at),
+                  ('Wavefront.free_space(tf=H(z)) != angular_spectrum(f, z)', wt.data, az, at),
+                  ('Wavefront.free_space(dz, Q) != angular_spectrum(f, z, Q)', wq.data, a, at)]
         if at_add < 1e-3:       # beyond that the phases themselves are lost to rounding: additivity is not testable
             checks.append(('A_z A_z2 f != A_(z+z2) f', s12, s, at_add))
         for nm, x, y, tl in checks:
             ok, err = close(x, y, tl)
             if not ok:
                 return False, f'{nm}: max err {err:.3g} (tolerance {tl:.3g})', {}
-        return True, '', {'tf': tf, 'a': a, 'g': g, 'tol_model': max(at, 32 * eps * phase)}
+        if not (wq.dx == dx and wq.wavelength == wvl and wq.space == w0.space):
+            return False, f'Wavefront.free_space returned dx={wq.dx}, wavelength={wq.wavelength}, space={wq.space!r}', {}
+        return True, '', {'tf': tf, 'a': az, 'g': g, 'btf': btf, 'tol_model': max(at, 32 * eps * phase), 'known': known}
     finally:
         config.precision = 64
 
@@ -291,7 +372,9 @@ def gen_asp(r, shape):
         else:
             mag = unit * float(np.exp(r.uniform(np.log(300.0), np.log(1e6))))
         return mag if r.random() < 0.5 else -mag
-    return {'shape': list(shape), 'wvl': wvl, 'dx': dx, 'z': zz(), 'z2': zz(), 'Q': 1 if r.random() < 0.75 else 2,
+    return {'shape': list(shape), 'wvl': wvl, 'dx': dx, 'z': zz(), 'z2': zz(),
+            'Q': [1, 1, 1, 1.5, 2, 3, 'default'][int(r.integers(7))],
+            'samples_form': ['tuple', 'list', 'npint', 'int'][int(r.integers(4))],
             'dtype': 'complex128' if r.random() < 0.8 else 'float64', 'precision': 32 if r.random() < 0.12 else 64,
             'seed': int(r.integers(1 << 30)), 'regime': regime}
 
@@ -367,12 +450,14 @@ def _corr(ctx, ft, pr, config):
     for c in acases:
         m, n = c['shape']
         ctx.case('free_space', c, nontrivial=not (m == n == 1),
-                 tag=f'{c.get("regime", "?")}/{"z0" if c["z"] == 0 else "z+" if c["z"] > 0 else "z-"}/'
+                 tag=f'{c.get("regime", "?")}/{"z0" if c["z"] == 0 else "z+" if c["z"] > 0 else "z-"}/{c.get("samples_form")}/'
                      f'{"phase<=300" if asp_phase_max(c) <= 300 else "phase>300"}/Q{c["Q"]}/p{c["precision"]}')
         ok, detail, ex = pred_asp(c)
         if not ok:
             ctx.pred_fail('free_space', c, detail)
             continue
+        if ex.get('known'):
+            ctx.filtered_known['asp-pads-never-crops'] += ex['known']
         if m * n <= 81:
             g = ex['g']
             mm, nn = g.shape
@@ -380,7 +465,8 @@ def _corr(ctx, ft, pr, config):
                 hdr = f'{mm} {nn} {C.f2w(c["wvl"])} {C.f2w(c["dx"])} {C.f2w(c["z"])}'
                 lines.append(f'asptf {hdr}')
                 lines.append(f'asp {hdr} {arr2w(g)}')
-                todo.append(('asp', c, ex, (mm, nn), len(lines) - 2))
+                lines.append(f'asptfb {mm} {nn} {arr2w(ex["tf"])} {arr2w(g)}')
+                todo.append(('asp', c, ex, (mm, nn), len(lines) - 3))
 
     # ---- fftfreq table
     nmax = ctx.scale(40, 200)
@@ -415,6 +501,9 @@ def _corr(ctx, ft, pr, config):
             ok, err = close(ex['a'], a, tol)
             if not ok:
                 ctx.disagree('free_space', dict(c, what='angular_spectrum'), f'max |impl - model| = {err:.3g}', 'model asp')
+            ok, err = close(ex['btf'], w2arr(rep[at + 2], M, N), tol)
+            if not ok:
+                ctx.disagree('free_space', dict(c, what='angular_spectrum(tf=)'), f'max |impl - model| = {err:.3g}', 'model aspApplyG')
     for n in range(1, nmax + 1):
         ctx.case('fftfreq', {'n': n}, nontrivial=n > 1)
         mine = [int(x) for x in rep[ff_at + n - 1].split()]
@@ -464,10 +553,12 @@ def search(ctx, hints):
         for wvl, dx in ((0.6, 0.1), (0.6328, 1e-4), (1.55, 6e-4), (0.5, 5e-4), (1.0, 50.0)):
             unit = 2 * dx * dx / (np.pi * wvl / 1e3)
             for z, z2 in ((0.0, unit), (5.0 * unit, -2.0 * unit), (-3.0 * unit, 3.0 * unit), (1e5 * unit, unit)):
-                c = {'shape': [m, n], 'wvl': wvl, 'dx': dx, 'z': z, 'z2': z2, 'Q': 1, 'dtype': 'complex128', 'precision': 64, 'seed': 3}
-                ok, detail, _ = pred_asp(c)
-                if not ok:
-                    return {'item': 'free_space', 'input': c, 'detail': detail}
+                for Q in (1, 'default', 1.5):
+                    c = {'shape': [m, n], 'wvl': wvl, 'dx': dx, 'z': z, 'z2': z2, 'Q': Q, 'dtype': 'complex128', 'precision': 64,
+                         'seed': 3, 'samples_form': 'npint' if m == n else 'list'}
+                    ok, detail, _ = pred_asp(c)
+                    if not ok:
+                        return {'item': 'free_space', 'input': c, 'detail': detail}
     # seeded random
     pairs = band_pairs()
     for _ in range(ctx.scale(150, 1500)):
